@@ -241,7 +241,13 @@ def judge(out, op, res, bools, what, mip, soft=False, solver=None):
             v_ref, lab = lpkit.second_opinion(raw, x_ref, v_ref, x, float(res.value), tv, tf)
             out.label(lab)
         if v_ref is not None and abs(float(res.value) - v_ref) > tv:
-            out.fail("%s: reported value %.9g, reference optimum %.9g" % (what, float(res.value), v_ref))
+            # a feasible but sub-optimal point with status 'optimal': EAO's translation or the solver behind it?  If
+            # another backend behind the same translation attains the reference optimum it is the backend
+            # (seen: cvxpy's SCIPY/HiGHS MIP interface returns 1.25 where SCIP and the enumeration give 4.0625)
+            if mip and worst <= tf and float(res.value) < v_ref and backend_disagrees(op, res, v_ref, solver, soft, mip):
+                out.label("backend_disagreement:%s:suboptimal" % solver)
+            else:
+                out.fail("%s: reported value %.9g, reference optimum %.9g" % (what, float(res.value), v_ref))
     return st_ref
 
 
